@@ -48,6 +48,7 @@ def cursor_order(ctx, terms):
     the head of what the previous field left: the nesting of the split terms *is* the order.  None when the terms are not of that form."""
     fixed = ['a', 'a1', 'b', 'r1', 's1']
     splits = {}
+    pair_form = None
     for f in fixed + ['li', 'ri']:
         t = terms.get(f)
         if t is None:
@@ -61,24 +62,43 @@ def cursor_order(ctx, terms):
         fs = _first_split(t)
         if fs is None:
             return None, 'no split_at head in %s' % f
+        if f == 'ri' and 'li' in splits and any(x is T('field', '1', splits['li'][0]) for x in walk(t)):
+            # R is the remainder of the pair L was cut from: (L, R) = pair.split_at(32) with pair = rest.split_at(64).0
+            pair = _strip_mut(splits['li'][1])
+            if pair.tag == 'field' and pair[1] == '0' and pair[2].tag == 'adapt' and pair[2][1] in ('split_at', 'split_at_checked') and len(pair[2].args) >= 3:
+                if canon(pair[2][3]) not in ('64', '(2 Mul 32)', '(32 Mul 2)', '(32 Add 32)'):
+                    return False, 'an (L, R) pair is cut with size %s' % canon(pair[2][3])
+                pair_form = pair[2]
+                splits[f] = (splits['li'][0], splits['li'][1])
+                continue
+            return None, 'R is the tail of the slice L was cut from, which is not itself a 64-byte head of the cursor'
         if canon(fs[0][3]) != '32':
             return False, 'field %s is cut with size %s' % (f, canon(fs[0][3]))
         splits[f] = fs
     # a1 is the head of a's tail, b of a1's, ..
     for prev, cur in zip(fixed, fixed[1:]):
         want = T('field', '1', splits[prev][0])
-        if _strip_mut(splits[cur][1]) is not want:
+        src_ = _strip_mut(splits[cur][1])
+        if src_.tag == 'phi' and any(_strip_mut(y) is want for y in src_.args):
+            return None, 'the cursor is advanced conditionally (%s is read from the advanced or the unadvanced cursor)' % cur
+        if src_ is not want:
             return False, 'field %s is not read from what %s left (it is read from %s)' % (cur, prev, short(splits[cur][1], 80))
     # within one iteration R is the head of L's tail, and the loop starts with what s1 left
-    if _strip_mut(splits['ri'][1]) is not T('field', '1', splits['li'][0]):
-        return False, 'R is not read from what L left'
-    lv = _strip_mut(splits['li'][1])
+    if pair_form is not None:
+        # .. or L and R are the two halves of one 64-byte head of the cursor, and the loop continues from that head's tail
+        lv = _strip_mut(pair_form[2])
+        left = pair_form
+    else:
+        if _strip_mut(splits['ri'][1]) is not T('field', '1', splits['li'][0]):
+            return False, 'R is not read from what L left'
+        lv = _strip_mut(splits['li'][1])
+        left = splits['ri'][0]
     if lv.tag != 'lv':
         return None, 'L/R are not read in a loop over the cursor'
     inits = [_strip_mut(y) for y in ctx.eng.lv_defs(lv)]
     if not any(y is T('field', '1', splits['s1'][0]) for y in inits):
         return None, 'the L/R loop does not visibly start from what s1 left'
-    if not any(y is T('field', '1', splits['ri'][0]) for y in inits):
+    if not any(y is T('field', '1', left) for y in inits):
         return False, 'the L/R loop does not continue from what R left'
     # d1 precedes a: a's source is the slice after the tag, advanced by the d1 closure
     ua = splits['a'][1]
